@@ -54,7 +54,7 @@ HASH_ITER = {
     "libwild::symbol_db::SymbolDb::all_unversioned_symbols::{closure}": ("set-only", "diagnostic iterator"),
 }
 
-SOURCES = re.compile(r"^(rayon::current_num_threads|rayon_core::current_num_threads|std::thread::available_parallelism|.*Uuid::new_v4|"
+SOURCES = re.compile(r"^(rayon::current_num_threads|rayon_core::current_num_threads|std::thread::available_parallelism|.*::new_v4|"
                      r"std::time::Instant::now|std::time::SystemTime::now|std::env::var|std::env::var_os|std::env::vars|std::process::id|"
                      r"std::thread::current|std::hash::RandomState::new|std::collections::hash_map::RandomState::new|rayon::current_thread_index|"
                      r"std::env::current_dir|std::env::temp_dir|libc::getpid|libc::time|libc::clock_gettime|libc::getrandom|rand::.*|getrandom::.*)$")
@@ -188,7 +188,7 @@ def run(ctx, rep):
         ck = callee_key(t["f"])
         if ck == "std::env::args" or ck == "std::env::current_dir" and False:
             continue
-        row = SOURCE_ALLOW.get((stable(b.key), ck)) or SOURCE_ALLOW.get((stable(b.key), re.sub(r"^.*Uuid::new_v4$", "uuid::Uuid::new_v4", ck)))
+        row = SOURCE_ALLOW.get((stable(b.key), ck)) or SOURCE_ALLOW.get((stable(b.key), re.sub(r"^.*::new_v4$", "uuid::Uuid::new_v4", ck)))
         rep.ob("sources", f"{stable(b.key)}->{ck}", row is not None, row or "a nondeterminism source is read outside the allow table: anything derived from it must not reach the output bytes", b.file, t["l"])
     rep.floor("sources", "nondeterminism source sites", len(sites), 15)
     # uuid only under BuildIdOption::Uuid
